@@ -353,7 +353,7 @@ def iter_next(ex, it):
 @model_rx(r'^<.* as Iterator>::next$')
 def m_iter_next(ex, a, m):
     it = a[0].cell.v
-    if not isinstance(it, IterV): raise Unsupported(f'next on {it!r}')
+    if not isinstance(it, IterV) and not (isinstance(it, Agg) and it.ty == 'Range'): raise Unsupported(f'next on {it!r}')
     return opt(iter_next(ex, it))
 @model_rx(r'^Peekable::peek$')
 def m_peek(ex, a, m):
